@@ -245,6 +245,8 @@ impl Exec {
             }
         }
         if drop_db {
+            // handles created after the Database was dropped belong to the closed instance
+            self.drop_handles();
             // the deferred close has now happened
             if self.mode == Mode::Strict && !self.io_error_seen {
                 self.disk.marker(Marker::CloseEnd);
